@@ -406,7 +406,8 @@ pub fn run(run: &mut Run) -> Finish {
                 l.violation(idx, v);
             }
             let ntok = st.iter().flatten().filter(|&&x| x > 0).count();
-            l.case(ntok > 0, h64(&(st.iter().map(|l| l.iter().map(|&k| k as u8).collect::<Vec<_>>()).collect::<Vec<_>>(), k % 3)));
+            // class: per line the number of slots of each kind (not their order), and the value pattern
+            l.case(ntok > 0, h64(&(st.iter().map(|l| (0..4).map(|kind| l.iter().filter(|&&k| k == kind).count()).collect::<Vec<_>>()).collect::<Vec<_>>(), k % 3)));
             if l.wants_sample(idx) {
                 l.sample(idx, json!({"slice": "L1", "document": String::from_utf8_lossy(&doc_of(&lines, &["a", "b", "c"], &["x", "y", "z"]).0)}));
             }
